@@ -9,6 +9,8 @@ from __future__ import annotations
 import re
 from datetime import datetime, timedelta, timezone
 
+from .c06_header_roundtrip import OtherZone
+
 from ..monitors.reach import Reach, opt
 
 ID = "C13"
@@ -166,7 +168,9 @@ DOMAINS = [None, "example.com", ".example.com", "example.com:8080", "bücher.exa
            # a port behind a name whose last label is not ASCII (an IDN top-level domain, a one-label intranet name)
            "münchen:5000", ".пример.рф:8080", "☃.com:8080"]
 MAXAGES = [None, 0, 3600, timedelta(hours=1), timedelta(seconds=1.9)]
-EXPIRES = [None, datetime(2030, 1, 2, 3, 4, 5, tzinfo=timezone.utc), datetime(2030, 1, 2, 3, 4, 5), 1893553445, "Wed, 02 Jan 2030 03:04:05 GMT"]
+EXPIRES = [None, datetime(2030, 1, 2, 3, 4, 5, tzinfo=timezone.utc), datetime(2030, 1, 2, 3, 4, 5), 1893553445, "Wed, 02 Jan 2030 03:04:05 GMT",
+           # the same instant carried by zone objects that are not datetime.timezone instances (zoneinfo / dateutil style)
+           datetime(2030, 1, 2, 3, 4, 5, tzinfo=OtherZone(0)), datetime(2030, 1, 2, 4, 4, 5, tzinfo=OtherZone(60))]
 SAMESITE = [None, "lax", "Strict", "NONE", "Lax"]
 
 
